@@ -144,6 +144,16 @@ pub fn run(ctx: &Ctx) -> i32 {
             check_case(ctx, st, &[t], Settings::new(if i < metas.len() * 3 { REP } else { REP | ESC | CAP }));
         });
     }
+    // prefixes followed by different sets of repeat counts (all pairs of subsets of {1..5})
+    {
+        let cs = gen::count_set_cases();
+        let step = if ctx.thorough { 1 } else { 1 };
+        par_for(&ctx.run, cs.len() / step, |k, st| {
+            let i = k * step + (seed as usize % step);
+            st.count("count_set_cases");
+            check_case(ctx, st, &cs[i], Settings::new(REP));
+        });
+    }
     // 3. structured random families over adversarial alphabets x random lattice points
     let n = if ctx.thorough { 400_000 } else { 24_000 };
     let alphabets: Vec<(String, Vec<String>)> = gen::ALPHABETS.iter().map(|a| (a.to_string(), gen::alphabet(a))).collect();
